@@ -21,6 +21,7 @@ K_TRYB = "GenericArray<$0,$1>::try_boxed_from_iter"
 K_FROM = "<GenericArray<$0,$1> as core::iter::FromIterator<$0>>::from_iter"
 K_FROMB = "<alloc::boxed::Box<GenericArray<$0,$1>,alloc::alloc::Global> as core::iter::FromIterator<$0>>::from_iter"
 K_EXT = ["IntrusiveArrayBuilder<$0,$1>::extend", "ArrayBuilder<$0,$1>::extend"]
+CONV_KEYS = ("GenericArray<$0,$1>::try_from_vec", "GenericArray<$0,$1>::try_from_boxed_slice")
 
 
 def results(a):
@@ -48,6 +49,35 @@ def hint_terms(a):
     return sh[0], lower, upper
 
 
+def none_targets(a, call):
+    """Blocks entered on the None edge of the switch on call's Option result."""
+    return sorted({s2 for (x, s2), fs in a.edge_facts.items() if any(("variant", call.ret, 0) in f for f in fs)})
+
+
+def fill_loop(ctx, cfg, a, body, at_bb):
+    """The loop form of the fill (`for slot in destination { match source.next() { Some(v) => store, None => leave } }`): a loop over the
+    tracked builder's whole array from slot 0, without adaptors, each continuing step storing once and counting once (builder protocol), which
+    can reach at_bb only through the exhaustion of the destination. None when there is no such loop."""
+    from .c03 import full_traversal_loop
+    db = ctx.db(cfg)
+    owners = owner_adts(db)
+    cl = Classifier(db)
+    for i in range(len(a.locals)):
+        if local_adt(a, i) in owners:
+            lp = full_traversal_loop(ctx, cfg, a, body, owners, cl, i, at_bb)
+            if lp is not None:
+                return lp
+    return None
+
+
+def is_fill_loop(ctx, cfg, a, body, lp):
+    for t in lp.none_targets:
+        fl = fill_loop(ctx, cfg, a, body, t)
+        if fl is not None and fl.nxt is lp.nxt:
+            return True
+    return False
+
+
 def check_try(ctx, cfg, key, boxed):
     b = ctx.body(cfg, key, "C07.O")
     if b is None:
@@ -64,15 +94,24 @@ def check_try(ctx, cfg, key, boxed):
     if not boxed:
         full_calls = [c for c in a.calls if c.key == "IntrusiveArrayBuilder<$0,$1>::is_full"]
         full_terms = [c.ret[1] for c in full_calls if c.ret[0] == "B" and c.ret[1][0] == "cmp"]
-        def is_full(facts):
-            return any(a.prove(facts, "Eq", t[2], t[3]) for t in full_terms)
+        def is_full(facts, bb=None):
+            if any(a.prove(facts, "Eq", t[2], t[3]) for t in full_terms):
+                return True
+            # the loop form: this point is reached only through the exhaustion of a complete, counted traversal of the destination
+            return bb is not None and fill_loop(ctx, cfg, a, b, bb) is not None
     else:
         lens = [c for c in a.calls if c.fn == "alloc::vec::Vec::<T, A>::len" and c.ret[0] == "I"]
         ext = [c for c in a.calls if c.fn == "core::iter::Extend::extend"]
         vec_base = ext[0].args[0][1] if ext and ext[0].args[0][0] == "P" else None
         lens = [c for c in lens if c.args[0][0] == "P" and c.args[0][1] == vec_base and ext and a.dominates(ext[0].bb, c.bb)]
-        def is_full(facts):
+        def is_full(facts, bb=None):
             return any(a.prove(facts, "Eq", c.ret[1], N) for c in lens)
+    # a Result handed on unchanged from the crate's own Vec / boxed-slice conversion (Ok iff the length is N: C15.G) is a possible Ok as well
+    convs = [c for c in a.calls if c.key in CONV_KEYS]
+    if boxed:
+        for c in convs:
+            if (c.term["dest"]["l"] == 0 and not c.term["dest"]["p"]) or any(r["val"] == c.ret for r in a.returns):
+                oks.append({"facts": c.facts, "site": (c.bb, None), "conv": c.key})
     # C07.O: every Ok(array) is built under `destination full` and `an extra poll returned None`
     if not oks or not polls:
         ctx.ob("C07.O", key, REFUTED if oks else MISSING, "expected an Ok(..) construction guarded by one extra poll of the source; found %d Ok / %d polls" % (len(oks), len(polls)), at=b["at"], cfg=cfg)
@@ -80,14 +119,25 @@ def check_try(ctx, cfg, key, boxed):
     bad = []
     for g in oks:
         none = any((("b", ("is_some", poll.ret), False) in g["facts"]) or (("variant", poll.ret, 0) in g["facts"]) for poll in polls)
-        full = is_full(g["facts"])
+        full = is_full(g["facts"], g["site"][0])
         if not (full and none):
             bad.append("Ok(..) under %s: destination full: %s, extra poll returned None: %s" % (fstr(g["facts"]), full, none))
     ctx.ob("C07.O", key, not bad, "; ".join(bad) if bad else "%d Ok(..) construction(s), each under `destination full (== N)` and `the extra poll returned None`" % len(oks), at=b["at"], cfg=cfg)
     ctx.sample({"rule": "C07.O", "fn": key, "cfg": cfg, "facts_at_Ok": [fstr(g["facts"]) for g in oks]})
     # C07.P: a poll outside the fill happens only under full
-    badp = [fstr(p_.facts) for p_ in polls if not is_full(p_.facts)]
-    ctx.ob("C07.P", key, not badp, "each extra iter.next() outside the fill is reached only when the destination is full: %s" % (not badp if not badp else badp), at=polls[0].at, cfg=cfg)
+    # a poll inside a fill loop is part of the fill: exactly one per stored slot, and its None edge leaves without polling again
+    from ..loops import find_loops
+    in_fill = []
+    for lp in ([] if boxed else find_loops(a)):
+        mine = [p_ for p_ in polls if p_.bb in lp.blocks]
+        if not mine or not is_fill_loop(ctx, cfg, a, b, lp):
+            continue
+        cnt = lp.count_on_paths(lambda c: c in mine)
+        again = [q for p_ in mine for t in none_targets(a, p_) for q in polls if q.bb == t or a.reaches(t, q.bb)]
+        if cnt == {1} and not again:
+            in_fill += mine
+    badp = [fstr(p_.facts) for p_ in polls if p_ not in in_fill and not is_full(p_.facts, p_.bb)]
+    ctx.ob("C07.P", key, not badp, "each extra iter.next() outside the fill is reached only when the destination is full: %s; polls inside a loop-form fill (one per slot, never again after None): %d" % (not badp if not badp else badp, len(in_fill)), at=polls[0].at, cfg=cfg)
     # C07.H - judged per path (helpers inlined, loop-free part tree-shaped): an Err built before any fill call must be justified by the hint
     at = ctx.analysis_inl(cfg, key, split=True)
     ht = hint_terms(at)
@@ -139,6 +189,22 @@ def check_try(ctx, cfg, key, boxed):
                 c_ok = cok and role == "builder" and pair
             ok = d_ok and s_ok and c_ok
             det = "fill = zip(iter_mut over the tracked builder's whole array, &mut source).for_each(cl): destination is Zip's receiver: %s; source passed by &mut: %s; closure stores item -> slot and counts it: %s" % (d_ok, s_ok, c_ok)
+        if not fes:
+            # loop form of the same fill, judged on the same expanded body
+            polls_z = [c for c in az.calls if c.fn == "core::iter::Iterator::next" and c.args[0][0] == "P" and c.args[0][1] == ("local", itl)]
+            for lp in find_loops(az):
+                mine = [p_ for p_ in polls_z if p_.bb in lp.blocks]
+                if len(mine) != 1 or not is_fill_loop(ctx, cfg, az, b, lp):
+                    continue
+                item = ("V", "proj", ("proj", mine[0].ret, (("v", 1), 0))) if mine[0].ret[0] != "O" else mine[0].ret[1]
+                slots = [(p_[1], p_[2]) for p_ in lp.slot_ptrs()]
+                ws = [c for c in lp.calls() if c.fn in ("core::mem::MaybeUninit::<T>::write", "core::ptr::write")]
+                w_ok = len(ws) == 1 and ws[0].args[0][0] == "P" and (ws[0].args[0][1], ws[0].args[0][2]) in slots and ws[0].args[1] == item
+                one = lp.count_on_paths(lambda c: c in mine) == {1} and lp.count_on_paths(lambda c: c in ws) == {1}
+                leave = not [q for t in none_targets(az, mine[0]) for q in polls_z if q.bb == t or az.reaches(t, q.bb)]
+                ok = w_ok and one and leave
+                det = "fill = loop over the tracked builder's whole array (destination polled first, from slot 0, no adaptor; builder protocol per step): True; one source poll and one store per continuing step: %s; the polled item is stored into the slot of that step: %s; a None from the source leaves the loop without another poll: %s" % (one, w_ok, leave)
+                break
         ctx.ob("C07.Z", key + "#fill", ok, det, at=b["at"], cfg=cfg)
     else:
         ex = [c for c in a.calls if c.fn == "core::iter::Extend::extend"]
@@ -155,9 +221,8 @@ def check_try(ctx, cfg, key, boxed):
             det = "source = take(&mut iter, N): %s; Vec::with_capacity(N): %s" % (ok, cap)
             ok = ok and cap
         ctx.ob("C07.Z", key + "#fill", ok, det, at=b["at"], cfg=cfg)
-        tv = [c for c in a.calls if c.key == "GenericArray<$0,$1>::try_from_vec"]
-        okv = len(tv) == 1 and is_full(tv[0].facts)
-        ctx.ob("C07.O", key + "#convert", okv, "try_from_vec(v) reached under len == N: %s (its unwrap cannot fail)" % okv, at=b["at"], cfg=cfg)
+        okv = bool(convs) and all(is_full(c.facts) for c in convs)
+        ctx.ob("C07.O", key + "#convert", okv, "%s reached under len == N: %s (its result cannot be Err / its unwrap cannot fail)" % ([c.key.split("::")[-1] for c in convs], okv), at=b["at"], cfg=cfg)
 
 
 def check_extend(ctx, cfg, key):
